@@ -18,6 +18,7 @@
 //!                                     estimator: `x.log2_bounds()` = (lb, ub) must satisfy lb <= log2|x| <= ub;
 //!                                     log2|x| is recomputed here in f64 from the top 64 bits, with a tolerance
 //!                                     far below the f32 resolution; a failure prints the numbers)
+//!      `implset`    -> digest of the impl headers / macro invocations of the anchored source files
 //! A pair for which the library has no impl prints `ok nopair` (the model carries the same table).
 #![allow(deprecated, unreachable_patterns)]
 use dashu_base::{AbsEq, AbsOrd, BitTest, EstimatedLog2};
@@ -624,6 +625,51 @@ fn log2encl(x: &Num) -> Res {
     }
 }
 
+// ------------------------------------------------------------------------------ impl set (tie to source)
+
+const IMPL_SOURCES: [(&str, &str); 7] = [
+    ("integer/num_order.rs", include_str!("/repo/integer/src/third_party/num_order.rs")),
+    ("float/num_order.rs", include_str!("/repo/float/src/third_party/num_order.rs")),
+    ("rational/num_order.rs", include_str!("/repo/rational/src/third_party/num_order.rs")),
+    ("integer/cmp.rs", include_str!("/repo/integer/src/cmp.rs")),
+    ("float/cmp.rs", include_str!("/repo/float/src/cmp.rs")),
+    ("rational/cmp.rs", include_str!("/repo/rational/src/cmp.rs")),
+    ("base/sign.rs", include_str!("/repo/base/src/sign.rs")),
+];
+
+/// the impl headers (`impl … NumOrd<…>/NumHash/AbsOrd/AbsEq … for …`, also inside macro bodies) and
+/// the top-level macro invocations of each anchored file, as `file:count:fnv64`.  The dispatch tables
+/// of this harness and of the model were transcribed from exactly this set; if it changes the model
+/// prints another digest and the tables must be revisited.
+fn implset() -> String {
+    let mut out = vec![];
+    for (name, src) in IMPL_SOURCES.iter() {
+        let mut n = 0usize;
+        let mut h: u64 = 0xcbf29ce484222325;
+        for line in src.lines() {
+            let t = line.trim();
+            let is_impl = t.starts_with("impl")
+                && (t.contains("NumOrd<") || t.contains("NumHash for") || t.contains("AbsOrd") || t.contains("AbsEq"));
+            let is_invocation = !line.starts_with(' ')
+                && t.ends_with(");")
+                && t.contains("!(")
+                && !t.starts_with("//")
+                && (t.contains("ord") || t.contains("abs") || t.contains("signed"));
+            if is_impl || is_invocation {
+                n += 1;
+                for b in t.bytes().filter(|b| !b.is_ascii_whitespace()) {
+                    h ^= b as u64;
+                    h = h.wrapping_mul(0x100000001b3);
+                }
+                h ^= 0x0a;
+                h = h.wrapping_mul(0x100000001b3);
+            }
+        }
+        out.push(format!("{}:{}:{:016x}", name, n, h));
+    }
+    out.join(" ")
+}
+
 /// which way the real log2-bound filter goes for a pair that uses it (annotation only, not compared)
 fn path_tag(x: &Num, y: &Num) -> &'static str {
     fn b(x: &Num) -> Option<(f32, f32, bool)> {
@@ -651,7 +697,7 @@ fn path_tag(x: &Num, y: &Num) -> &'static str {
 }
 
 pub fn dispatch(op: &str, args: &[&str]) -> Option<Res> {
-    if !["numcmp", "numeq", "abscmp", "abseq", "ordcmp", "numhash", "hasheq", "log2encl"].contains(&op) {
+    if !["numcmp", "numeq", "abscmp", "abseq", "ordcmp", "numhash", "hasheq", "log2encl", "implset"].contains(&op) {
         return None;
     }
     Some((|| -> Res {
@@ -698,6 +744,7 @@ pub fn dispatch(op: &str, args: &[&str]) -> Option<Res> {
                 Ok(f_feed(&numhash_all(&x)?))
             }
             "log2encl" => log2encl(&p_num(arg(args, 0)?)?),
+            "implset" => Ok(implset()),
             "hasheq" => {
                 let x = p_num(arg(args, 0)?)?;
                 let y = p_num(arg(args, 1)?)?;
